@@ -4,7 +4,7 @@
 (* submission order), the decoded shards are chained; this repeats until an empty batch.                     *)
 (* Shard k holds Lens[k] examples; example j of shard k is the number 10 * k + j.  Fails: shards whose       *)
 (* decoding raises.                                                                                          *)
-EXTENDS Naturals, Sequences, FiniteSets, TLC
+EXTENDS Naturals, Sequences, FiniteSets
 
 CONSTANTS Lens, P, Fails,
           OneBatch     \* TRUE: only the first batch is processed (`if batch` instead of `while batch`) - sanity only
@@ -41,8 +41,9 @@ Next == TakeBatch \/ (\E k \in 1..K : Finish(k)) \/ Yield \/ Finished
 Spec == Init /\ [][Next]_vars
 FairSpec == Spec /\ WF_vars(TakeBatch \/ Yield) /\ \A k \in 1..K : WF_vars(Finish(k))
 
-RECURSIVE Expected(_)
-Expected(k) == IF k > K THEN <<>> ELSE [j \in 1..Lens[k] |-> 10 * k + j] \o Expected(k + 1)
+\* (a recursive function rather than a RECURSIVE operator so that the proof system accepts the module too)
+ExpectedFrom[k \in 1..K + 1] == IF k > K THEN <<>> ELSE [j \in 1..Lens[k] |-> 10 * k + j] \o ExpectedFrom[k + 1]
+Expected(k) == ExpectedFrom[k]
 IsPrefix(a, b) == Len(a) <= Len(b) /\ SubSeq(b, 1, Len(a)) = a
 \* examples come out in shard order and in order within the shard, whatever the completion order  (C03)
 OrderPreserving == IsPrefix(out, Expected(1))
